@@ -716,6 +716,9 @@ class CompoundInterval(Location):
 
     def gap_list(self) -> List[SingleInterval]:
         optimized = self.optimize_and_combine_blocks()
+        if optimized.is_empty:
+            # every block is empty: there is nothing between them
+            return []
         block_iter = optimized.scan_blocks()
         gaps = []
         block1 = next(block_iter)
